@@ -30,8 +30,9 @@ STUBS = ["S-dict", "S-hash", "S-fmt"]
 ASSUMPTIONS = [
     "labels are integers >= 1 (any value, equal labels allowed); data_ids explicit and pairwise distinct",
     "get_path is checked with a constant repr (formatting a symbolic int does not exhaust)",
+    "history shards: every query is asked once, then one mutation (move, remove, add, sort; all arguments symbolic) is applied and all queries are asked again",
 ]
-TIMEOUTS = {"quick": (240, 30), "thorough": (900, 60)}
+TIMEOUTS = {"quick": (900, 60), "thorough": (3000, 120)}
 
 
 def BOUNDS(tier):
@@ -39,15 +40,28 @@ def BOUNDS(tier):
     return {"max_nodes": n, "shapes": len(shapes_upto(n, 1)), "labels": "unbounded ints >= 1", "pair": "all (i, j), all flags, levels 0..n+2 iterated inside every path"}
 
 
+HIST_OPS = ["move", "remove", "add", "sort"]
+
+
 def shards(tier):
     n = 4 if tier == "quick" else 5
     out = []
     for sh in shapes_upto(n, 1):
         out.append({"name": "rel-%s" % shape_str(sh), "shape": list(sh)})
+    # history shards: all queries are asked once (warming any cache), one
+    # mutation is applied, then all queries must agree with the new structure
+    hn = 3 if tier == "quick" else 4
+    for op in HIST_OPS:
+        for sh in shapes_upto(hn, 2):
+            out.append({"name": "hist-%s-%s" % (op, shape_str(sh)), "kind": "hist", "op": op, "shape": list(sh), "regime": "R1", "cost": 20})
     return out
 
 
 def params(desc):
+    if desc.get("kind") == "hist":
+        from vlib import mutate as MU
+
+        return MU.params(desc)
     n = len(desc["shape"])
     return [("l%d" % i, "int", 1, None) for i in range(n)]
 
@@ -72,7 +86,45 @@ def height(shape, i):
     return max(depth_of(shape, d) for d in ds) - depth_of(shape, i)
 
 
+def _warm(tree, nodes):
+    for nd in nodes:
+        nd.depth(), nd.calc_depth(), nd.calc_height(), nd.get_top(), nd.get_parent_list(), nd.get_index()
+        nd.count_descendants(), nd.is_top(), nd.is_leaf(), nd.get_siblings(), nd.first_sibling(), nd.last_sibling()
+        nd.prev_sibling(), nd.next_sibling(), nd.is_first_sibling(), nd.is_last_sibling(), nd.up()
+        for other in nodes:
+            nd.is_descendant_of(other), nd.get_common_ancestor(other)
+    tree.calc_height()
+
+
+def _hist(ctx, desc, x):
+    from vlib import build as B
+    from vlib import mutate as MU
+
+    r = MU.step(ctx, desc, x, pre_hook=_warm)
+    if r.skip or r.exc is not None or r.pre_clause:
+        return ""
+    ctx.mark()
+    w = B.walk(r.tree)
+    if w is None:
+        return ""  # structural corruption is C01's subject
+    nodes2 = [nd for nd, _ in w]
+    shape2 = []
+    for nd, par in w:
+        shape2.append(-1 if par is None else [k for k, m in enumerate(nodes2) if m is par][0])
+    n2 = len(nodes2)
+    for i in range(n2):
+        for j in range(n2):
+            for flags in range(8) if j == 0 else (0,):
+                c = _check_pair(tuple(shape2), r.tree, nodes2, i, j, list(range(0, n2 + 3)) if j == 0 else [],
+                                bool(flags & 1), bool(flags & 2), bool(flags & 4))
+                if c:
+                    return "after-%s:%s@%d,%d" % (desc["op"], c, i, j)
+    return ""
+
+
 def body(ctx, desc, x):
+    if desc.get("kind") == "hist":
+        return _hist(ctx, desc, x)
     shape = tuple(desc["shape"])
     n = len(shape)
     labels = [x["l%d" % k] for k in range(n)]
